@@ -325,6 +325,72 @@ def judge_case(ctx, m, args, S, rep, cases, key, native=None):
     cases.append((f"({traps}, {clist([event_coq(e, gt) for e in evs])})", " | ".join(calls), rep))
 
 
+HIST_TW = """
+@tweezer
+def kq(a: float):
+    z = spec.get_static_trap(zone_id="traps")
+    s = z[0:2, 1]
+    action.set_loc(s)
+    action.turn_on([0, 1], [0])
+    action.move(grid.shift(s, a, spec.get_float_constant(constant_id="neg")))
+    action.turn_off([0, 1], [0])
+"""
+HIST_MV = """
+@move
+def shuttle_round(x: float):
+    # no lookup of its own: it only plays device calls (whose kernel reads the spec while it is traced)
+    f = schedule.device_fn(kq, [0, 1], [0])
+    f(x)
+    with schedule.parallel():
+        f(x + 1.0)
+        schedule.reverse(f)(2.0)
+    gate.global_rz(0.25)
+
+@move{DEC}
+def main(n: int, c: bool):
+    i = 0
+    for i in range(n):
+        shuttle_round(0.5 * i)
+    gate.top_hat_cz(spec.get_static_trap(zone_id="traps"))
+    shuttle_round(3.0)
+"""
+
+
+def spec_histories(ctx, cases):
+    """programs replayed for DIFFERENT specs one after the other in one process - among them two specs that differ in one constant and
+    have the SAME hash (-1.0 / -2.0) - compiled with the spec and with the spec only given to the visualizer, over one shared helper that
+    plays device calls: every replay shows the paths of its own spec (reference: the source evaluated natively under that spec)"""
+    from bloqade.geometry.dialects.grid import Grid
+    from bloqade.shuttle.arch import ArchSpec, Layout
+
+    def mk(dx, neg):
+        lay = Layout({"traps": Grid.from_positions([0.0 + dx, 2.0 + dx, 4.0 + dx, 6.5 + dx], [0.0, 3.0, 6.0]), "aux": Grid.from_positions([20.0, 21.0, 22.0], [1.0, 2.0, 3.0, 4.0])},
+                     {"traps"}, {"traps"}, {"aux"}, special_grid={})
+        return ArchSpec(layout=lay, float_constants={"neg": neg}, int_constants={})
+    specs = {"A": mk(0.0, -1.0), "B": mk(0.0, -2.0), "C": mk(100.0, -1.0)}
+    ctx.extra["spec_histories"] = {"hash(A) == hash(B)": hash(specs["A"]) == hash(specs["B"]), "A == B": specs["A"] == specs["B"]}
+    ns = {"kq": kernels.define(HIST_TW)["kq"]}
+    helper = kernels.define(HIST_MV.split("@move{DEC}")[0], **ns)["shuttle_round"]
+    main_src = "@move{DEC}" + HIST_MV.split("@move{DEC}")[1]
+    n = 0
+    for order in (("A", "B", "C", "A"), ("B", "A", "B")):
+        for with_spec in (False, True):
+            for step, name in enumerate(order):
+                S = specs[name]
+                try:
+                    m = kernels.define(main_src.replace("{DEC}", "(arch_spec=S)" if with_spec else ""), S=S, shuttle_round=helper, **ns)["main"]
+                except Exception as e:
+                    ctx.obligation("the spec-history program compiles", False, f"{type(e).__name__}: {e}"[:200])
+                    continue
+                nat = move_native.run_native(HIST_TW + HIST_MV.replace("{DEC}", ""), (2, True), S, kernel_ns=ns)
+                if nat[0] != "ok":
+                    ctx.obligation("the spec-history program runs natively", False, str(nat[-1])[:200])
+                judge_case(ctx, m, (2, True), S, {"spec_history": list(order), "step": step, "compiled_with_spec": with_spec, "args": "(2, True)"}, cases,
+                           ("spec-history", order, step, with_spec), native=nat)
+                n += 1
+    ctx.count("replays in histories over three specs (two of them with equal hashes) sharing one helper", n)
+
+
 def run(ctx):
     S = tweezer_prog.harness_spec()
     reflect_dispatch(ctx, S)
@@ -367,6 +433,7 @@ def run(ctx):
                 if nat[0] != "ok":
                     ctx.obligation(f"order program {j} runs natively", False, str(nat[-1])[:200])
                 judge_case(ctx, m, args, S, {"src": tw_src + fsrc, "args": repr(args), "compiled_with_spec": with_spec}, cases, ("order", j, args, with_spec), native=nat)
+    spec_histories(ctx, cases)
     T = thin_spec()
     for j, (tsrc, targs) in enumerate(THIN_PROGRAMS):
         for with_spec in (False, True):
@@ -399,6 +466,21 @@ def run(ctx):
 
 def replay(data):
     inp = data["input"]
+    if "spec_history" in inp:
+        class C:
+            evaluations = 0
+            def __init__(s): s.fails, s.extra = [], {}
+            def fail(s, sig, rep, what):
+                if rep.get("spec_history") == inp["spec_history"] and rep.get("step") == inp["step"] and rep.get("compiled_with_spec") == inp["compiled_with_spec"]:
+                    s.fails.append(what)
+            def hist(s, *a): pass
+            def nt(s, *a): pass
+            def count(s, *a): pass
+            def obligation(s, n, ok, log=""):
+                if not ok: s.fails.append(n)
+        c = C()
+        spec_histories(c, [])
+        return bool(c.fails), (c.fails or ["every replay shows the paths of its own spec"])[0][:200]
     if "thin_src" in inp:
         T = thin_spec()
         m = kernels.define(inp["thin_src"], S=T)["main"]
